@@ -249,7 +249,7 @@ func clipCmds(cs [][]string) [][]string {
 
 func caseOf(sc Scenario, step int) map[string]interface{} {
 	c := map[string]interface{}{"scenario": sc.Name, "init": sc.Init, "large": sc.Large, "prefix_cut": sc.PrefixCut,
-		"pre": clipCmds(sc.Pre), "unrelated": clipCmds(sc.Unrelated), "failed_at_step": step}
+		"pre": clipCmds(sc.Pre), "unrelated": clipCmds(sc.Unrelated), "failed_at_step": step, "follower_appendonly": !sc.NoAOF}
 	var steps []map[string]interface{}
 	for i, s := range sc.Steps {
 		if i > step {
@@ -297,10 +297,12 @@ func ownPort() int {
 
 // startOwn starts a server on dir and makes sure the process answering on the port is the one just started (ports
 // are picked by "was free a moment ago"; other harnesses run on the same machine). A different port is tried otherwise.
-func startOwn(dir string, port int) (*srv.Server, int) {
+func startOwn(dir string, port int) (*srv.Server, int) { return startOwnArgs(dir, port) }
+
+func startOwnArgs(dir string, port int, extra ...string) (*srv.Server, int) {
 	var lastErr error
 	for try := 0; try < 6; try++ {
-		s, err := srv.StartPort(dir, port)
+		s, err := srv.StartPort(dir, port, extra...)
 		if err == nil {
 			time.Sleep(30 * time.Millisecond)
 			if c, e := s.Dial(); e == nil {
@@ -424,7 +426,15 @@ func (x *ctx) runScenario(sc Scenario, dir string) {
 		}
 		os.WriteFile(fAOF, fb, 0o600)
 	}
-	follower, fport := startOwn(fdir, ownPort())
+	var fargs []string
+	if sc.NoAOF {
+		// a follower without a log (cache-only replica): s.aof is nil, aofsz stays 0, every (re)connect starts over
+		fargs = []string{"--appendonly", "no"}
+		if sc.Init != "empty" && sc.Init != "unrelated" {
+			panic("a follower without a log cannot start from a log: init=" + sc.Init)
+		}
+	}
+	follower, fport := startOwnArgs(fdir, ownPort(), fargs...)
 	defer func() { follower.Kill() }()
 	if sc.Init == "unrelated" || sc.Init == "diverged" {
 		c := follower.MustDial()
@@ -440,7 +450,13 @@ func (x *ctx) runScenario(sc Scenario, dir string) {
 
 	for si, st := range sc.Steps {
 		x.dist("fault:" + st.Fault)
-		sig := func(class string) string { return class + ":init=" + sc.Init + ":" + sizeClass(sc) + ":" + st.Fault }
+		sig := func(class string) string {
+			s := class + ":init=" + sc.Init + ":" + sizeClass(sc) + ":" + st.Fault
+			if sc.NoAOF {
+				s += ":noaof"
+			}
+			return s
+		}
 		nBefore := px.NumSessions()
 		truncBefore := countTruncations(follower)
 		var planMu sync.Mutex
@@ -491,7 +507,7 @@ func (x *ctx) runScenario(sc Scenario, dir string) {
 			lsize, ackDone = setAcked()
 			fsnap, _ = os.ReadFile(fAOF)
 			fsnapOK = true
-			follower, fport = startOwn(fdir, fport)
+			follower, fport = startOwnArgs(fdir, fport, fargs...)
 		case "killconn":
 			px.KillAll()
 			doLeader(st.Writes)
@@ -510,6 +526,23 @@ func (x *ctx) runScenario(sc Scenario, dir string) {
 			lsize, ackDone = setAcked()
 			fsnap, _ = os.ReadFile(fAOF)
 			fsnapOK = aofSizeOf(follower.Port) == int64(len(fsnap))
+		case "offline-shrink":
+			// the follower is cut off (its redials are refused) while the leader acknowledges writes and then rewrites its
+			// log: what was deleted meanwhile is in no log any more; only a follower that starts from nothing (or from a
+			// verified prefix of the NEW log) ends up without it
+			px.SetPark("reject")
+			px.KillAll()
+			doLeader(st.Writes)
+			n0 := countShrinkEnded(leader)
+			lc.MustDo("AOFSHRINK")
+			for i := 0; i < 800 && countShrinkEnded(leader) == n0; i++ {
+				time.Sleep(10 * time.Millisecond)
+			}
+			marker = newMarker()
+			lsize, ackDone = setAcked()
+			fsnap, _ = os.ReadFile(fAOF)
+			fsnapOK = aofSizeOf(follower.Port) == int64(len(fsnap))
+			px.SetPark("")
 		case "stall-dial", "stall-reject", "stall-server", "stall-md5", "stall-replconf", "stall-aof":
 			stage := map[string]string{"stall-dial": "dial", "stall-reject": "reject", "stall-server": "server",
 				"stall-md5": "aofmd5|aof", "stall-replconf": "replconf", "stall-aof": "aof"}[st.Fault]
@@ -700,9 +733,19 @@ func (x *ctx) runScenario(sc Scenario, dir string) {
 			if fsz == lsize || time.Now().After(dl) {
 				break
 			}
+			if sc.NoAOF && fsz == 0 {
+				break
+			}
 			time.Sleep(50 * time.Millisecond)
 		}
-		if fsz != lsize {
+		if sc.NoAOF {
+			// no log: aof_size stays 0 (model: FollowGen gdeliver / gcheck with c_aof = false leave file and aofsz alone)
+			if fsz != 0 {
+				x.fail(hx.Failure{Kind: "oracle", Signature: sig("aof-size-differs"),
+					What: fmt.Sprintf("a follower started with --appendonly no reports aof_size %d", fsz), Case: caseOf(sc, si)})
+				return
+			}
+		} else if fsz != lsize {
 			x.fail(hx.Failure{Kind: "oracle", Signature: sig("aof-size-differs"),
 				What: fmt.Sprintf("caught-up follower and quiescent leader have equal dumps but aof_size %d on the follower vs %d on the leader", fsz, lsize),
 				Case: caseOf(sc, si), Impl: map[string]interface{}{"resumed_at": sesPos(ses)}})
@@ -1056,7 +1099,7 @@ func (x *ctx) correspond(sc Scenario, si int, st Step, ses *session, f, l []byte
 // ---- driver ----
 
 func runC06(r *hx.Result, cfg hx.Config) {
-	r.Rule = "one evaluation = one (scenario, step): a fault from {FOLLOW, follower restart by SIGKILL / SIGTERM, dropped replication connections, leader AOFSHRINK, follower SIGSTOP/SIGCONT, dropped connections followed by a reconnect that the proxy holds or refuses at a stage of the handshake (dial, refused, SERVER, AOFMD5, REPLCONF, AOF) while HEALTHZ / caught_up are sampled} with leader writes acknowledged during it, on a real leader/follower pair whose initial follower is empty / a true record-boundary prefix of the leader's log / unrelated data (thorough: also above 512 KiB, a diverged copy and a copy differing in a middle block); after each step the direct oracles (premature caught-up while the stream is held, convergence of dumps and aof_size) and the model correspondence of the resume decision are evaluated. non-trivial = the leader history up to that step contains at least one accepted write."
+	r.Rule = "one evaluation = one (scenario, step): a fault from {FOLLOW, follower restart by SIGKILL / SIGTERM, dropped replication connections, leader AOFSHRINK, follower SIGSTOP/SIGCONT, dropped connections followed by a reconnect that the proxy holds or refuses at a stage of the handshake (dial, refused, SERVER, AOFMD5, REPLCONF, AOF) while HEALTHZ / caught_up are sampled} with leader writes acknowledged during it, on a real leader/follower pair whose initial follower is empty / a true record-boundary prefix of the leader's log / unrelated data (thorough: also above 512 KiB, a diverged copy and a copy differing in a middle block); after each step the direct oracles (premature caught-up while the stream is held, convergence of dumps and aof_size) and the model correspondence of the resume decision are evaluated. Followers run with a log or with --appendonly no (init empty / unrelated; aof_size must stay 0); fault offline-shrink = the follower's redials are refused while the leader acknowledges writes and completes AOFSHRINK. Follow generations: a reconnect attempt of the previous generation is held by the proxy inside its handshake (dial, SERVER, AOF) while FOLLOW to another leader is accepted and completed, then released (the follower must stay a copy of its current leader; model Model/FollowGen.v, correspondence on whether the stale attempt still sends AOF); leader AOFSHRINK between a follower's followCheckSome and its AOF command. non-trivial = the leader history up to that step contains at least one accepted write."
 	r.Assumptions = []string{"MD5 collision-freeness on equal-length blocks (model hypothesis md5_inj)", "the proxy relays bytes unchanged; the probe sequence and AOF position are read off the wire",
 		"no object or hook deadline elapses during a scenario (EX 5000 only), so the follower's own expiry sweeper writes nothing"}
 	x := &ctx{r: r, cfg: cfg}
@@ -1093,6 +1136,9 @@ func runC06(r *hx.Result, cfg hx.Config) {
 	}
 	for _, sc := range scs {
 		r.Dist("init:" + sc.Init + ":" + sizeClass(sc))
+		if sc.NoAOF {
+			r.Dist("follower:appendonly-no")
+		}
 	}
 	par := 6
 	sem := make(chan struct{}, par)
@@ -1111,6 +1157,21 @@ func runC06(r *hx.Result, cfg hx.Config) {
 		defer wg.Done()
 		x.runRepoint(filepath.Join(cfg.Work, "repoint"))
 	}()
+	// follow generations (gens.go): a reconnect attempt of the previous generation held inside its handshake while FOLLOW
+	// to another leader is accepted and completed
+	for _, g := range []func(){
+		func() { x.runStaleGeneration(filepath.Join(cfg.Work, "stale-server"), "server", false) },
+		func() { x.runStaleGeneration(filepath.Join(cfg.Work, "stale-dial"), "dial", false) },
+		func() { x.runStaleGeneration(filepath.Join(cfg.Work, "stale-server-noaof"), "server", true) },
+		func() { x.runStaleFlag(filepath.Join(cfg.Work, "stale-flag")) },
+		func() { x.runCheckThenShrink(filepath.Join(cfg.Work, "check-shrink")) },
+	} {
+		wg.Add(1)
+		go func(g func()) { defer wg.Done(); g() }(g)
+	}
+	if os.Getenv("C06_ONLY") == "gens" { // development aid: only the scenarios above
+		scs = nil
+	}
 	for i, sc := range scs {
 		wg.Add(1)
 		sem <- struct{}{}
